@@ -208,8 +208,8 @@ static std::string gen_t(Rng &r, unsigned depth) {
     case 0: return "(n " + gen_k(r) + ")";
     case 1: case 2: return "(v " + gen_vi(r) + ")";
     default:
-      // a zero coefficient is stored by linear_expression(Number, variable): kept rare
-      return "(t " + gen_k(r, r.below(25) == 0) + " " + gen_vi(r) + ")";
+      // zero coefficients included: linear_expression(0, x) / 0 * x must not store a term
+      return "(t " + gen_k(r) + " " + gen_vi(r) + ")";
     }
   }
   switch (r.below(18)) {
@@ -244,8 +244,8 @@ static std::string gen_c(Rng &r, unsigned depth) {
   if (depth == 0 || k < 5) {
     // constant constraints in a fair share (tautology / contradiction paths)
     std::string t = r.below(5) == 0 ? "(n " + gen_k(r) + ")" : gen_t(r, 1 + r.below(3));
-    // rare: a constant function with a stored zero coefficient (0*x + k)
-    if (r.below(300) == 0) t = "(addn (t 0 " + gen_vi(r) + ") " + gen_k(r) + ")";
+    // a constant function written with a variable (0*x + k)
+    if (r.below(25) == 0) t = "(addn (t 0 " + gen_vi(r) + ") " + gen_k(r) + ")";
     if (r.below(6) == 0) { std::string u = gen_t(r, 2); t = "(sub " + u + " " + u + ")"; }
     if (r.coin()) return "(mk " + r.pick(KINDS) + " " + t + ")";
     return "(rel " + r.pick(RELS) + " " + t + " " + gen_t(r, 1) + ")";
